@@ -5,6 +5,7 @@ import (
 	"database/sql"
 	"fmt"
 	"strings"
+	"sync"
 	"testing"
 	"time"
 
@@ -326,6 +327,33 @@ func c07Prop(rt *rapid.T, rec *ev.Recorder) {
 		return true
 	}
 
+	// cancelAt: the context of one attempt is cancelled at its j-th observation. An attempt that reports success must have
+	// recorded the whole block (exactly the fault-free result); one that fails must leave nothing behind. Returns false
+	// when the block went in.
+	cancelAt := func(j int, label string) bool {
+		pre := dumpTables(pathS, faultTables)
+		ctx := newScriptedCtx(j)
+		err := processCtx(S, ctx, tb)
+		rec.Class("fault_cancel_at_observation")
+		if err == nil {
+			got := dumpTables(pathS, "rht", faultTables)
+			if d := diffDumps(got, twinAtTarget); d != "" {
+				fatal(rt, "[%s] %s: ProcessBlock(%s) reported success although its context was cancelled, and the block is not recorded as in a run without the cancellation (A=after the call, B=fault-free):\n%s", k, label, tb.brief(), d)
+			}
+			if lp := lastProcessed(S); lp != tb.Num {
+				fatal(rt, "[%s] %s: ProcessBlock(%s) reported success but the last processed block is %d", k, label, tb.brief(), lp)
+			}
+			return false
+		}
+		if d := diffDumps(pre, dumpTables(pathS, faultTables)); d != "" {
+			fatal(rt, "[%s] %s: after a cancelled ProcessBlock(%s) (%v) part of the block is visible:\n%s", k, label, tb.brief(), err, d)
+		}
+		if lp := lastProcessed(S); lp != lastBefore {
+			fatal(rt, "[%s] %s: last processed block moved %d -> %d although the block failed", k, label, lastBefore, lp)
+		}
+		return true
+	}
+
 	inj.snapshotRHT()
 	undo := func() {
 		if err := S.reorg(tb.Num); err != nil {
@@ -366,13 +394,43 @@ func c07Prop(rt *rapid.T, rec *ev.Recorder) {
 				undo()
 			}
 		}
+		// cancellation points: count the observations of a clean attempt, then cancel at the first two, the last eight
+		// and a generated sample of the others
+		probe := newScriptedCtx(0)
+		if err := processCtx(S, probe, tb); err != nil {
+			fatal(rt, "[%s] store refused valid block %s under an observing context: %v", k, tb.brief(), err)
+		}
+		undo()
+		nObs := probe.observations()
+		points := map[int]bool{}
+		for j := 1; j <= nObs+1; j++ {
+			if j <= 2 || j >= nObs-6 || rapid.IntRange(0, nObs/10).Draw(rt, "cancelPointSampled") == 0 {
+				points[j] = true
+			}
+		}
+		for j := 1; j <= nObs+1; j++ {
+			if !points[j] {
+				continue
+			}
+			label := fmt.Sprintf("context cancelled at its observation %d of %d", j, nObs)
+			if cancelAt(j, label) {
+				retryAndCheck(label)
+			}
+			undo()
+		}
+		rec.ClassN("enumerated_cancellation_points", len(points))
 		rec.Class("enumerated_histories")
 		rec.ClassN("enumerated_faults", total)
 	} else {
 		// a sequence of 1-3 faults (storage statement, cancelled context, cancellation racing the call), then retry
 		nf := rapid.IntRange(1, 3).Draw(rt, "nFaults")
 		for i := 0; i < nf && !completed; i++ {
-			switch rapid.IntRange(0, 5).Draw(rt, "faultKind") {
+			switch rapid.IntRange(0, 6).Draw(rt, "faultKind") {
+			case 6:
+				if !cancelAt(rapid.IntRange(1, 200).Draw(rt, "cancelAtObservation"), fmt.Sprintf("fault %d of %d in sequence, context cancelled at a generated observation", i+1, nf)) {
+					completed = true
+				}
+				key += "C,"
 			case 5:
 				if leaves > 0 {
 					if !nodeReadFault(fmt.Sprintf("fault %d of %d in sequence, node reads failing", i+1, nf), rapid.Bool().Draw(rt, "restartBeforeReadFault")) {
@@ -460,6 +518,51 @@ func c07Prop(rt *rapid.T, rec *ev.Recorder) {
 	}
 	rec.Class("store_" + k.String())
 }
+
+// scriptedCtx is a context that becomes cancelled at its k-th observation (call of Done or Err) by the code under test:
+// a deterministic enumeration of "the caller gives up / the process is asked to stop at this point of ProcessBlock".
+// Right after it fires it pauses for a moment, as a descheduled goroutine would, so that database/sql's watcher goroutine
+// (which rolls an open transaction back when its context ends) gets to run before the observer continues.
+type scriptedCtx struct {
+	context.Context
+	mu     sync.Mutex
+	fireAt int // fires at this observation (1-based); 0 = never
+	obs    int
+	fired  bool
+	ch     chan struct{}
+}
+
+func newScriptedCtx(fireAt int) *scriptedCtx {
+	return &scriptedCtx{Context: context.Background(), fireAt: fireAt, ch: make(chan struct{})}
+}
+
+func (c *scriptedCtx) observe() {
+	c.mu.Lock()
+	c.obs++
+	fire := !c.fired && c.fireAt > 0 && c.obs >= c.fireAt
+	if fire {
+		c.fired = true
+		close(c.ch)
+	}
+	c.mu.Unlock()
+	if fire {
+		time.Sleep(time.Millisecond)
+	}
+}
+
+func (c *scriptedCtx) Done() <-chan struct{} { c.observe(); return c.ch }
+
+func (c *scriptedCtx) Err() error {
+	c.observe()
+	c.mu.Lock()
+	defer c.mu.Unlock()
+	if c.fired {
+		return context.Canceled
+	}
+	return nil
+}
+
+func (c *scriptedCtx) observations() int { c.mu.Lock(); defer c.mu.Unlock(); return c.obs }
 
 func lastProcessed(s *store) uint64 {
 	var n uint64
